@@ -62,7 +62,37 @@ pub fn bigint_of_pallas(i: &pa::BigInt) -> BigInt {
     }
 }
 
+thread_local! {
+    static PLAIN: std::cell::Cell<bool> = const { std::cell::Cell::new(false) };
+}
+
+/// Render Data by value only (no "indef"/"enc"/"raw" encoding details) inside `f`.
+pub fn with_plain<T>(f: impl FnOnce() -> T) -> T {
+    let old = PLAIN.with(|p| p.replace(true));
+    let r = f();
+    PLAIN.with(|p| p.set(old));
+    r
+}
+
 pub fn data_to_json(d: &PlutusData) -> J {
+    let j = data_to_json_full(d);
+    if PLAIN.with(|p| p.get()) { strip_encoding(j) } else { j }
+}
+
+fn strip_encoding(j: J) -> J {
+    match j {
+        J::Object(mut o) => {
+            o.remove("indef");
+            o.remove("enc");
+            o.remove("raw");
+            J::Object(o.into_iter().map(|(k, v)| (k, strip_encoding(v))).collect())
+        }
+        J::Array(a) => J::Array(a.into_iter().map(strip_encoding).collect()),
+        o => o,
+    }
+}
+
+fn data_to_json_full(d: &PlutusData) -> J {
     match d {
         PlutusData::Constr(c) => {
             let ix: Option<u64> = match c.tag {
